@@ -150,7 +150,8 @@ fn c06_config(ctx: &Ctx, depth: usize, keys: &[&[u8]], idx: u64, mock_base: bool
     for k in &all_keys {
         bounds.push(Some(k));
     }
-    let vals: [&[u8]; 4] = [b"v1", b"v2", b"v3", b"v4"];
+    // odd configuration indices write the very value the base holds ("redundant" writes)
+    let vals: [&[u8]; 4] = if idx % 2 == 1 { [b"base", b"v2", b"base", b"v4"] } else { [b"v1", b"v2", b"v3", b"v4"] };
 
     // endings: bit i set => level i (0 = lowest overlay) is committed, else discarded
     let endings: Vec<u32> = if depth <= 2 {
@@ -246,7 +247,7 @@ enum HOp {
 }
 
 const HKEYS: [&[u8]; 3] = [b"a", b"a\x00", b"\xff"];
-const HVALS: [&[u8]; 2] = [b"v1", b"v2"];
+const HVALS: [&[u8]; 3] = [b"v1", b"v2", b"base"];
 
 fn hop_json(o: &HOp) -> Value {
     match o {
@@ -269,7 +270,7 @@ fn hop_parse(s: &str) -> HOp {
     } else if let Some(r) = s.strip_prefix("set(") {
         let r = r.trim_end_matches(')');
         let (k, v) = r.split_once(',').unwrap();
-        HOp::Set(keyidx(k), if v == "v1" { 0 } else { 1 })
+        HOp::Set(keyidx(k), HVALS.iter().position(|x| show(x) == v).unwrap_or(0) as u8)
     } else if let Some(r) = s.strip_prefix("remove(") {
         HOp::Remove(keyidx(r.trim_end_matches(')')))
     } else {
@@ -384,6 +385,9 @@ fn hsymbols(nkeys: u8) -> Vec<HOp> {
     for k in 0..nkeys {
         v.push(HOp::Set(k, 0));
         v.push(HOp::Set(k, 1));
+        // writing back exactly the value the base holds (a "redundant" write must still shadow
+        // intermediate states of the cache)
+        v.push(HOp::Set(k, 2));
         v.push(HOp::Remove(k));
     }
     v.push(HOp::Push);
@@ -477,10 +481,11 @@ pub fn run_c06(ctx: &Ctx) -> i32 {
             hist_runs.push((2, 5, 2));
         }
         Tier::Thorough => {
-            hist_runs.push((3, 7, 0));
-            hist_runs.push((3, 6, 1));
-            hist_runs.push((3, 6, 2));
-            hist_runs.push((2, 8, 0));
+            hist_runs.push((3, 6, 0));
+            hist_runs.push((2, 7, 0));
+            hist_runs.push((3, 5, 1));
+            hist_runs.push((3, 5, 2));
+            hist_runs.push((1, 9, 0));
         }
     }
     for (nkeys, maxlen, bv) in hist_runs {
@@ -567,7 +572,7 @@ pub fn run_c06(ctx: &Ctx) -> i32 {
 fn s_as_bytes(s: &[HOp]) -> Vec<u8> {
     s.iter()
         .map(|o| match o {
-            HOp::Set(k, v) => 1 + k * 2 + v,
+            HOp::Set(k, v) => 1 + k * 3 + v,
             HOp::Remove(k) => 20 + k,
             HOp::Push => 40,
             HOp::PopCommit => 41,
